@@ -181,24 +181,26 @@ void viol(const char *prop, const char *key, const char *fmt, ...)
 
 /* ================================================================ memory */
 const char *CANARY_PROP;
-struct blk { uint8_t *p; size_t n; };
+struct blk { uint8_t *p; size_t n; uint8_t *base; };
 static struct blk *blks; static size_t nblk, capblk;
 #define CANARY 16
 void *xalloc(size_t n)
 {
         size_t tot = VERIF_ASAN ? n : n + CANARY;
-        uint8_t *p = malloc(tot ? tot : 1);
+        uint8_t *base, *p;
+        if (VERIF_ASAN && n == 0) { base = malloc(8); p = base ? base + 8 : NULL; }      /* ASan turns malloc(0) into malloc(1): hand out the end of a block instead, so that touching byte 0 of a zero-sized block is reported */
+        else base = p = malloc(tot);
         if (!p) { fprintf(stderr, "oom\n"); exit(2); }
         if (!VERIF_ASAN)
                 for (size_t i = 0; i < CANARY; i++) p[n + i] = (uint8_t)(0xC5 ^ (i * 7));
         if (nblk == capblk) { capblk = capblk ? capblk * 2 : 256; blks = realloc(blks, capblk * sizeof *blks); }
-        blks[nblk].p = p; blks[nblk].n = n; nblk++;
+        blks[nblk].p = p; blks[nblk].n = n; blks[nblk].base = base; nblk++;
         return p;
 }
 char *xstr(const char *s) { size_t n = strlen(s) + 1; char *p = xalloc(n); memcpy(p, s, n); return p; }
 void xfree_all(void)
 {
-        for (size_t i = 0; i < nblk; i++) free(blks[i].p);
+        for (size_t i = 0; i < nblk; i++) free(blks[i].base);
         nblk = 0;
 }
 void canary_check(const char *where)
